@@ -10,7 +10,7 @@ A table is a list of rows in the order in which `link_partial` holds them after 
                range the old label (the column was only overwritten inside the range).
 The in-range labels are an INPUT of this model (they are the business of C01/C02).
 
-Python dictionaries are association lists with the newest binding first (`List.lookup` returns the
+Python dictionaries are association lists with the newest binding first (`lk` returns the
 newest binding, i.e. "later rows overwrite").  `set(mapping_patch.values())` is modelled by the
 second components of the list; the two coincide whenever no key is bound twice, which is the case
 for every table whose in-range labels are unique per frame (the driver reports `validnew`).
@@ -31,6 +31,16 @@ structure Row where
   deriving DecidableEq, Repr, Inhabited
 
 abbrev Map := List (Int × Int)
+
+/-- `d.get(k)` on an association list whose newest binding comes first -/
+def lk : Map → Int → Option Int
+  | [], _ => none
+  | (a, b) :: m, k => if k = a then some b else lk m k
+
+/-- a list as a set: duplicates removed -/
+def dedup : List Int → List Int
+  | [] => []
+  | x :: xs => if x ∈ xs then dedup xs else x :: dedup xs
 
 /-- which variant of `partial.py` is modelled -/
 structure Rule where
@@ -100,16 +110,20 @@ def idsAfter (stop : Int) (rows : List Row) : List Int :=
 /-- the `elif` of the repaired second loop:
     `p_old in claimed and (p_old not in ids_before or p_old not in ids_after
                            or last_frame[claimed[p_old]] >= first_frame[p_new])`;
-    always `false` for the original code. -/
+    always `false` for the original code.  `overlapB` is the last disjunct
+    (`last_frame[t0] >= first_frame[t]`; both dictionaries have the key whenever the track has a row). -/
+def overlapB (start stop : Int) (rows : List Row) (t0 t : Int) : Bool :=
+  match lastFrame start stop t0 rows, firstFrame start stop t rows with
+  | some a, some b => decide (b ≤ a)
+  | _, _ => true
+
 def blocked (rule : Rule) (start stop : Int) (rows : List Row) (mp1 : Map) (r : Row) : Bool :=
   rule.guardClaimed &&
   match claimedBy mp1 r.old with
   | none => false
   | some t0 =>
     (!(idsBefore start rows).contains r.old) || (!(idsAfter stop rows).contains r.old) ||
-    (match lastFrame start stop t0 rows, firstFrame start stop r.new rows with
-     | some a, some b => decide (b ≤ a)
-     | _, _ => true)
+    overlapB start stop rows t0 r.new
 
 /-- state of the second loop: `mapping_patch`, `mapping_after`, `renumber_after` -/
 structure St where
@@ -123,7 +137,7 @@ def loop2 (blk : Row → Bool) (stop : Int) : List Row → St → St
   | [], st => st
   | r :: rs, st =>
     if r.frame = stop - 1 ∧ 0 ≤ r.old then
-      match st.mp.lookup r.new with
+      match lk st.mp r.new with
       | some v => loop2 blk stop rs { st with ma := (r.old, v) :: st.ma }
       | none =>
         if blk r then loop2 blk stop rs { st with pend := (r.new, r.old) :: st.pend }
@@ -151,9 +165,9 @@ def inNew (start stop : Int) (rows : List Row) : List Int :=
   (rows.filter (fun r => decide (inRange start stop r))).map (·.new)
 
 /-- `remaining = set(f.loc[in_patch, 'particle'].values) - set(mapping_patch)` as a duplicate-free
-    list in order of first appearance. -/
+    list. -/
 def remCanon (start stop : Int) (rows : List Row) (mp : Map) : List Int :=
-  ((inNew start stop rows).filter (fun t => (mp.lookup t).isNone)).eraseDups
+  dedup ((inNew start stop rows).filter (fun t => (lk mp t).isNone))
 
 /-- The iteration order of the Python set `remaining` is not specified.  `order` is a *hint*: the
     elements of `order` that are in `remaining`, followed by the elements of `remaining` the hint
@@ -171,7 +185,7 @@ def usedIds (rule : Rule) (start stop : Int) (rows : List Row) (mp : Map) : List
 def applyPend (mpF : Map) : Map → Map → Map
   | [], ma => ma
   | (t, m) :: ps, ma =>
-    match mpF.lookup t with
+    match lk mpF t with
     | some v => applyPend mpF ps ((m, v) :: ma)
     | none => applyPend mpF ps ma
 
@@ -191,7 +205,7 @@ def buildMaps (rule : Rule) (start stop : Int) (order : List Int) (rows : List R
   ⟨mpF, applyPend mpF st.pend.reverse st.ma⟩
 
 /-- `Series.replace(dict)`: simultaneous substitution, values that are no key stay. -/
-def repl (m : Map) (x : Int) : Int := (m.lookup x).getD x
+def repl (m : Map) (x : Int) : Int := (lk m x).getD x
 
 /-- the two `replace` passes (partial.py:200-202): in-range rows through `mapping_patch`, rows at
     `frame >= stop` through `mapping_after`, rows before the range untouched. -/
